@@ -130,6 +130,14 @@ func suiteBytes(c *Ctx) {
 		spi, out := node.Update(nil, nil)
 		c.Emit("0 update 0 "+spi, out)
 	}
+	// a second real node that is alive but NOT a member of the committee of its height: its term has no
+	// in-committee part, everything addressed to it must be ignored
+	outNode := NewRealNode(w, 1, []byte{0xb7, 0x01}, nil)
+	c.Emit(fmt.Sprintf("1 init %s %d", hexid(outNode.Id), w.Inst), "init")
+	{
+		spi, out := outNode.Update(nil, nil)
+		c.Emit("1 update 0 "+spi, out)
+	}
 	// a real MainLoop running its two goroutines (receives everything through the public API)
 	cfg, _, _, _ := simpleConfig(w, memberId(3))
 	commits := 0
@@ -202,6 +210,20 @@ func suiteBytes(c *Ctx) {
 			o2 = "ok"
 			if node.Panicked != "" {
 				o2 = "panic"
+			}
+			// the same message to the node outside the committee
+			spi2, out2 := outNode.Deliver(raw)
+			line2 := "1 deliver " + outNode.enc.msg(raw)
+			if !outNode.enc.canonical(raw) {
+				line2 = "1 deliver-nc NC:" + outNode.enc.msg(raw)
+			}
+			if spi2 != "" {
+				line2 += " " + spi2
+			}
+			c.Emit(line2, out2)
+			if outNode.Panicked != "" {
+				c.Violation("C12", "handler-panic", fmt.Sprintf("delivering %d content bytes (mutation %s) to a node outside the committee panicked: %s", len(content), mut, outNode.Panicked), fmt.Sprintf("content=%x", content))
+				outNode.Panicked = ""
 			}
 		} else if o1 == "readable" {
 			_, out := node.Deliver(raw)
